@@ -36,6 +36,12 @@ class Stack(ElementBase):
         - get_slice(1, i) will return 6 operations (2x3, all with the same y-coordinate),
         - get_slice(2, i) will return 10 operations (2x5, all with the same z-coordinate)."""
 
+        if axis not in (0, 1, 2):
+            raise ValueError(f"Invalid axis: {axis}; use 0, 1 or 2")
+
+        if index < 0:
+            raise ValueError(f"Invalid slice index: {index}; use 0...(number of slices - 1)")
+
         if axis == 2:
             return self.shapes[index].operations
 
